@@ -23,6 +23,12 @@ A *case* is one message flow over circuit A plus at most one fault:
     Benches "dsX<h>" / "dsO<h>" put the exit / the originator on a real dual-stack DispatcherEndpoint (IPv4 + IPv6
     SimEndpoints); there every fault aimed at that node is delivered to its IPv4 address and (via6) to its IPv6 address,
     and `cleartext` sends a well-formed, unencrypted message of every cell message id with either flag value.
+    Benches "anO<h>": O's application overlay prefix is anonymized on a TunnelEndpoint and the flow `anon` hands an IPv8
+    packet to the real TunnelEndpoint.send (clean + fault menu on the resulting data cell).  Benches "aqO<h>" start
+    without any circuit and run one *send history* each (flow `anonseq`): every sequence of <= 3 (thorough 4) packets to
+    two destinations interleaved with prebuild / ready / remove / expire of the circuit (c04_ref.anon_histories); oracle:
+    what leaves the exit is a sub-multiset of what was handed to send(), each at most once and bit-exact, everything
+    handed over up to the last send that found a READY circuit has left exactly once, nothing readable on any link.
     Benches "teX<h>" / "teO<h>" / "seX<h>" / "seO<h>" put that node on TunnelEndpoint(SimEndpoint) resp.
     StatisticsEndpoint(SimEndpoint) and run the same clean, xor, foreign and cleartext cases.
 
@@ -72,6 +78,7 @@ EXIT_FLAGS = {PEER_FLAG_RELAY, PEER_FLAG_SPEED_TEST, PEER_FLAG_EXIT_BT}
 ROLES = {"O": RELAY_FLAGS, "P": RELAY_FLAGS, "R1": RELAY_FLAGS, "R2": RELAY_FLAGS, "X": EXIT_FLAGS}
 PATHS = {1: ["X"], 2: ["R1", "X"], 3: ["R1", "R2", "X"]}
 ORIGIN = {"A": "O", "B": "O", "C": "P"}
+ANON_ROLES = {**ROLES, "X": EXIT_FLAGS | {PEER_FLAG_EXIT_IPV8}}
 E2E_ROLES = {"D": RELAY_FLAGS, "S": RELAY_FLAGS, "N1": RELAY_FLAGS, "N2": RELAY_FLAGS, "N3": RELAY_FLAGS,
              "E": EXIT_FLAGS | {PEER_FLAG_EXIT_IPV8}}
 E2E_PATH = ["D", "N3", "N2", "S"]      # downloader, its relay, the rendezvous point, seeder
@@ -103,7 +110,10 @@ WRAP_BENCHES = ("teX1", "teX2", "teO1", "teO2", "seX1", "seX2", "seO1", "seO2")
 RETIRE_VARIANTS = ("exit", "exit-destroy", "relay", "origin")
 RETIRE_OFFSETS = (0.0, 2.5, 4.9, 5.1)       # seconds after the removal started (remove_tunnel_delay is 5 s)
 RETIRE_ITERATIONS = 7                       # and: exactly k loop iterations after the 5 s timer came due, k = 0..6
-EXPECTED_HANDLERS = {"data": [("X", 1)], "reply": [("O", 1)], "ping": [("X", 6), ("O", 7)],
+ANON_BENCHES = ("anO1", "anO2")      # O on a TunnelEndpoint with an anonymized application prefix; X exits IPv8 packets
+ANONSEQ_BENCHES = ("aqO1", "aqO2")   # the same without any circuit: one fresh world per send history
+ANON_DESTS = {"A": ("v4", "9.9.9.9", 99), "B": ("v4", "8.8.8.8", 88)}
+EXPECTED_HANDLERS = {"anon": [("X", 1)], "data": [("X", 1)], "reply": [("O", 1)], "ping": [("X", 6), ("O", 7)],
                      "test": [("X", 19), ("O", 20)], "e2e-ds": [("S", 1)], "e2e-sd": [("D", 1)]}
 
 
@@ -349,6 +359,13 @@ class Bench:
             fl.expected_dest = ((RESOLVED if dk == "dom" else dest[1], dest[2]), "v6" if dk == "v6" else "v4")
             fl.secrets = [fl.payload] if len(fl.payload) >= 8 else []
             w.send_out("O", c, _addr_obj(dest), fl.payload)
+        elif kind == "anon":     # the application hands an IPv8 packet of its anonymized overlay to TunnelEndpoint.send
+            fl.payload = ref.anon_packet(max(1, size), self.salt)
+            dest = DESTS[dk]
+            fl.pt["f"] = ref.msg_data(dest, ref.ZERO, fl.payload)
+            fl.expected_dest = ((dest[1], dest[2]), "v6" if dk == "v6" else "v4")
+            fl.secrets = [fl.payload]
+            w.nodes["O"].run(ov.endpoint.send, _addr_obj(dest), fl.payload)
         elif kind == "reply":
             fl.payload = ref.payload(size, self.salt + 1)
             src = DESTS[dk]
@@ -389,7 +406,7 @@ class Bench:
 
     def legs(self, kind: str) -> tuple:
         return {"data": ("f",), "reply": ("b",), "ping": ("f", "b"), "test": ("f", "b"),
-                "e2e-ds": ("f",), "e2e-sd": ("b",)}[kind]
+                "e2e-ds": ("f",), "e2e-sd": ("b",), "anon": ("f",)}[kind]
 
     def deliveries(self, fl: Flow) -> tuple[int, list[str]]:
         """(number of completed deliveries of this flow, list of problems with anything delivered anywhere)."""
@@ -398,7 +415,7 @@ class Bench:
         n = 0
         out = list(w.loop.outside_log)
         raws = {name: list(ov.raw_log) for name, ov in w.ov.items()}
-        if fl.kind == "data":
+        if fl.kind in ("data", "anon"):
             (host, port), fam = fl.expected_dest
             want_tr = self.exit_sock["A"].transport_ipv6 if fam == "v6" else self.exit_sock["A"].transport_ipv4
             for tr, data, addr in out:
@@ -535,6 +552,9 @@ class Bench:
         return [(f"loop-exception|{name}|{phase}", f"{len(excs)} exception(s) reached the event loop ({tag}): {txt}")]
 
     # -- retirement -----------------------------------------------------------------------------------------------------
+    def run_anonseq(self, history: str) -> tuple[list, str]:
+        raise HarnessError("send histories need an AnonSeqBench")
+
     def run_retire(self, size: int, dk: str, variant: str, offset) -> tuple[list, str]:  # noqa: ANN001
         """
         Circuit A has carried traffic (exit socket enabled, transports open).  One party starts removing its part of
@@ -723,6 +743,8 @@ class Bench:
         w, h = self.w, self.h
         if kind == "retire":
             return self.run_retire(size, dk, leg, link)
+        if kind == "anonseq":
+            return self.run_anonseq(leg)
         self.reset_logs()
         del w.loop.exceptions[:]
         tables0 = w.tables()
@@ -1010,10 +1032,14 @@ class DualBench(Bench):
         super().__init__(int(bid[3]), seed)
 
     def make_world(self) -> TunnelWorld:
-        w = DualWorld(("c04", self.seed, self.bid), ROLES, {self.dual: self.how}, community_cls=RecTunnel,
-                      key_offset=self.seed % 8)
+        how = "te" if self.how == "an" else self.how
+        w = DualWorld(("c04", self.seed, self.bid), ANON_ROLES if self.how == "an" else ROLES, {self.dual: how},
+                      community_cls=RecTunnel, key_offset=self.seed % 8)
         ep = w.ov[self.dual].endpoint
-        want = {"ds": DispatcherEndpoint, "te": TunnelEndpoint, "se": StatisticsEndpoint}[self.how]
+        if self.how == "an":     # as an application would: tunnels of h hops, this overlay prefix is anonymized
+            ep.set_tunnel_community(w.ov[self.dual], hops=self.h)
+            ep.set_anonymity(ref.APP_PREFIX, True)
+        want = {"ds": DispatcherEndpoint, "te": TunnelEndpoint, "se": StatisticsEndpoint, "an": TunnelEndpoint}[self.how]
         if not isinstance(ep, want) or (self.how == "ds" and len(ep.interfaces) != 2):
             raise HarnessError(f"{want.__name__} was not installed")
         return w
@@ -1025,6 +1051,112 @@ class DualBench(Bench):
         return self.w.v6[self.dual]
 
 
+class AnonSeqBench(Bench):
+    """
+    "aqO<h>": O sits on TunnelEndpoint(SimEndpoint), its application overlay prefix is anonymized with h-hop tunnels, X
+    is the only exit for IPv8 packets (R1 the only relay), and *no* circuit exists.  One send history per world.
+    """
+
+    def __init__(self, bid: str, seed: int) -> None:
+        self.bid = bid
+        super().__init__(int(bid[3]), seed)
+
+    def make_world(self) -> TunnelWorld:
+        roles = {"O": RELAY_FLAGS, "R1": RELAY_FLAGS, "X": EXIT_FLAGS | {PEER_FLAG_EXIT_IPV8}}
+        return DualWorld(("c04", self.seed, self.bid), roles, {"O": "te"}, community_cls=RecTunnel,
+                         key_offset=self.seed % 8)
+
+    def _setup(self) -> None:
+        w, h = self.w, self.h
+        self.prefix = w.ov["O"].get_prefix()
+        self.tep = w.ov["O"].endpoint
+        if not isinstance(self.tep, TunnelEndpoint):
+            raise HarnessError("TunnelEndpoint was not installed")
+        self.tep.set_tunnel_community(w.ov["O"], hops=h)
+        self.tep.set_anonymity(ref.APP_PREFIX, True)
+        if h == 1:
+            w.restrict("O", ["X"])
+        else:
+            w.restrict("O", ["R1", "X"])
+            w.restrict("R1", ["X"])
+        self.watch_handlers()
+        self.reset_logs()
+
+    def ready_circuits(self) -> list:
+        return self.w.ov["O"].find_circuits(exit_flags=[PEER_FLAG_EXIT_IPV8], hops=self.h)
+
+    def run_anonseq(self, history: str) -> tuple[list, str]:
+        """
+        Oracle: what leaves the exit's outside socket is a sub-multiset of the (destination, packet) pairs handed to
+        send(), each at most once and bit-exact; every packet handed over up to the last send that found a READY
+        circuit (that send also flushes the hold queue) has left exactly once; no packet readable on any link.
+        """
+        w, h = self.w, self.h
+        self.spent = True
+        self.reset_logs()
+        del w.loop.exceptions[:]
+        ov = w.ov["O"]
+        node = w.nodes["O"]
+        handed: list = []          # (destination tuple, packet, a READY circuit existed when it was handed over)
+        for ev in history.split("-"):
+            if ev[0] == "s":
+                dest = ANON_DESTS[ev[1]]
+                pkt = ref.anon_packet(24 + len(handed), self.salt + len(handed))
+                handed.append(((dest[1], dest[2]), pkt, bool(self.ready_circuits())))
+                node.run(self.tep.send, _addr_obj(dest), pkt)
+                w.loop.settle()
+            elif ev == "prebuild":
+                if node.run(ov.create_circuit, h, exit_flags=[PEER_FLAG_EXIT_IPV8]) is None:
+                    raise HarnessError("create_circuit refused")
+                w.loop.settle()
+            elif ev == "ready":
+                self.pump()
+                if not self.ready_circuits():
+                    raise HarnessError(f"no {h}-hop circuit became ready after {history!r}")
+            elif ev == "remove":
+                self.pump()
+                for c in list(ov.circuits.values()):
+                    node.run(ov.remove_circuit, c.circuit_id, "unneeded", destroy=1)
+                self.pump()
+            elif ev == "expire":
+                w.run_for(ov.settings.remove_tunnel_delay + 1.0)
+            else:
+                raise HarnessError(ev)
+        self.pump()
+        w.run_for(1.0)
+        where = f"h={h} history {history}"
+        v: list = []
+        pairs = [(d, p) for d, p, _ in handed]
+        last_ready = max((i for i, (_, _, r) in enumerate(handed) if r), default=-1)
+        exited = [(tuple(a), data) for _tr, data, a in w.loop.outside_log]
+        names = {p: f"#{i + 1}" for i, (_, p) in enumerate(pairs)}
+        for pair in sorted(set(exited), key=repr):
+            if pair not in pairs:
+                same = names.get(pair[1])
+                v.append(("anon:wrong-delivery", f"{where}: the exit emitted {len(pair[1])} bytes to {pair[0]} - "
+                          + (f"packet {same} was handed over for {dict((p, d) for d, p in pairs)[pair[1]]}" if same
+                             else "bytes nobody handed to send()")))
+            elif exited.count(pair) > 1:
+                v.append(("anon:duplicate", f"{where}: packet {names[pair[1]]} for {pair[0]} left the exit "
+                          f"{exited.count(pair)} times"))
+        for i, pair in enumerate(pairs[:last_ready + 1]):
+            if pair not in exited:
+                v.append(("anon:not-delivered", f"{where}: packet #{i + 1} for {pair[0]} "
+                          f"({'handed over while a circuit was READY' if handed[i][2] else 'held, then flushed'}; a later "
+                          f"send found a READY circuit) never left the exit; exited: "
+                          f"{[(names.get(p, '?'), d) for d, p in exited]}"))
+        for dg in w.wire_log:
+            if ref.MARKER in dg.data or ref.APP_PREFIX in dg.data or any(p in dg.data for _, p in pairs):
+                v.append(("anon:plaintext-on-wire", f"{where}: a packet of the anonymized overlay is readable in the "
+                          f"datagram {dg.src[0]}->{dg.dst[0]} ({len(dg.data)} bytes)"))
+                break
+        for name, o in w.ov.items():
+            if o.raw_log:
+                v.append(("anon:wrong-delivery", f"{where}: {name}.on_raw_data got {len(o.raw_log)} datagram(s)"))
+        v.extend(self.loop_exceptions("anonseq", "anonseq"))
+        return v, f"exited{len(exited)}of{len(pairs)}-must{last_ready + 1}-held{len(self.tep.send_queue)}"
+
+
 def hops_of(h) -> int:  # noqa: ANN001
     return 3 if h == "e2e" else int(h[3]) if isinstance(h, str) else h
 
@@ -1032,7 +1164,9 @@ def hops_of(h) -> int:  # noqa: ANN001
 def make_bench(h, seed: int) -> Bench:  # noqa: ANN001
     if h == "e2e":
         return E2EBench(h, seed)
-    if isinstance(h, str) and h[:2] in ("ds", "te", "se"):
+    if isinstance(h, str) and h[:2] == "aq":
+        return AnonSeqBench(h, seed)
+    if isinstance(h, str) and h[:2] in ("ds", "te", "se", "an"):
         return DualBench(h, seed)
     return Bench(h, seed)
 
@@ -1046,6 +1180,8 @@ def cell_len(h: int, kind: str, leg: str, link: int, size: int, dk: str) -> int:
         return ref.HEADER_LEN + 15 + size + OVH * E2E_LAYERS[link]
     if kind == "data":
         m = 1 + alen[dk] + 7 + size
+    elif kind == "anon":
+        m = 1 + alen[dk] + 7 + 22 + max(1, size)
     elif kind == "reply":
         m = 1 + 7 + alen[dk] + size
     elif kind == "ping":
@@ -1152,6 +1288,20 @@ def groups(thorough: bool) -> list:
                 for fclass in ("xor", "xor6", "misc", "misc6", "clear", "clear6"):
                     if bid[:2] == "ds" or not fclass.endswith("6"):
                         out.append([bid, kind, size, "v4", leg, link, fclass])
+    # anonymized overlay: packets enter the circuit through the real TunnelEndpoint.send
+    for bid in ANON_BENCHES:
+        hops = hops_of(bid)
+        for size in ((1, 24, 279, 1000, 1370) if thorough else (1, 24, 279, 1370)):
+            out.append([bid, "anon", size, "v4", "f", 0, "clean"])
+        out.append([bid, "anon", 24, "v6", "f", 0, "clean"])
+        for link in range(hops):
+            for fclass in ("xor", "misc"):
+                out.append([bid, "anon", 24, "v4", "f", link, fclass])
+        out.append([bid, "anon", 24, "v4", "f", hops - 1, "clear"])
+    for bid in ANONSEQ_BENCHES:
+        k = 4 if thorough else 3
+        for hist in ref.anon_histories(k):
+            out.append([bid, "anonseq", hist.count("s"), "v4", hist, 0, "clean"])
     # end-to-end (hidden service) circuit: D -> N3 -> rendezvous -> S and back
     if thorough:
         e2e_xor = sorted(set(range(0, 65)) | set(range(64, 1401, 64)) | set(QUICK_SIZES) | {1399})
@@ -1179,6 +1329,8 @@ def group_cost(g: list, thorough: bool) -> int:
     h, kind, size, dk, leg, link, fclass = g
     if kind == "retire":
         return 150          # needs a world of its own
+    if kind == "anonseq":
+        return 60
     if fclass == "clean":
         return 2 + size // 200
     if fclass in ("misc", "misc6", "clear", "clear6"):
@@ -1190,7 +1342,7 @@ def group_cost(g: list, thorough: bool) -> int:
 def pack_items(gs: list, thorough: bool, target: int) -> list:
     """Bins of groups with the same hop count and about `target` cases each (one bench per bin)."""
     items = []
-    for h in (1, 2, 3, "e2e", *DUAL_BENCHES, *WRAP_BENCHES):
+    for h in (1, 2, 3, "e2e", *DUAL_BENCHES, *WRAP_BENCHES, *ANON_BENCHES, *ANONSEQ_BENCHES):
         cur, cost = [], 0
         for g in sorted((g for g in gs if g[0] == h), key=lambda g: -group_cost(g, thorough)):
             c = group_cost(g, thorough)
@@ -1221,8 +1373,9 @@ def run_item(h, gs: list, seed: int, thorough: bool) -> dict:
 
     def note(v: list, case: list) -> None:
         for key, what in v:
-            if key not in out["viols"]:
-                out["viols"][key] = (what, {"h": h, "seed": seed, "case": case})
+            rp = {"h": h, "seed": seed, "case": case}
+            if key not in out["viols"] or _case_rank(rp) < _case_rank(out["viols"][key][1]):
+                out["viols"][key] = (what, rp)
 
     try:
         for gi, g in enumerate(gs):
@@ -1252,7 +1405,7 @@ def run_item(h, gs: list, seed: int, thorough: bool) -> dict:
                                                                     else "xor-body")
                 ck = ck if fclass not in ("misc", "misc6", "clear", "clear6") else inner[0]
                 ck = ck + "-via-ipv6" if fclass.endswith("6") else ck
-                ck = "retire" if g[1] == "retire" else ck
+                ck = g[1] if g[1] in ("retire", "anonseq") else ck
                 known = [(k, x) for k, x in v if k == KNOWN_RELAY_EARLY]
                 if known:          # registered finding: record it, but it neither damages the world nor ends the group
                     note(known, case)
@@ -1357,7 +1510,8 @@ def run(ctx: core.Ctx) -> core.Report:
                 "one trailing byte, circuit-id splice onto a second circuit of the same originator (B) and of another "
                 "originator (C) through the same nodes, five kinds of foreign cells, reflection to the sender, replay "
                 "on another link, well-formed unencrypted messages of every cell message id, and - for a dual-stack "
-                "exit/originator - the same faulty cells arriving on the node's IPv6 interface; plus retirement runs (see 'retire' in the module docstring) and payload shapes; "
+                "exit/originator - the same faulty cells arriving on the node's IPv6 interface; plus send histories of an "
+                "anonymized overlay through TunnelEndpoint.send (see the module docstring), retirement runs (see 'retire' in the module docstring) and payload shapes; "
                 "distinct_nontrivial = distinct (hops, flow, leg, link, fault class, outcome) tuples "
                 "where outcome is delivered-N / dropped-after-N-hops / accepted-intact(relay_early byte)",
         "samples": [{"bench_hops": h, "first_group": g[0], "groups_in_bench": len(g)} for h, g in items[:2]]
@@ -1384,6 +1538,8 @@ def run(ctx: core.Ctx) -> core.Report:
                    "iterations_after_grace_timer": len({g[5] for g in gs if g[1] == "retire" and isinstance(g[5], str)}),
                    "runs": sum(1 for g in gs if g[1] == "retire")},
         "payload_shapes": ["bt", *ref.SHAPES],
+        "anonymized_send_histories": {"max_packets": 4 if ctx.thorough else 3, "destinations": 2, "hops": [1, 2],
+                                      "histories": sum(1 for g in gs if g[1] == "anonseq")},
         "strict_relay_early": STRICT_RELAY_EARLY,
     }
     assumptions = [
@@ -1404,6 +1560,10 @@ def run(ctx: core.Ctx) -> core.Report:
         "shaped and pass the real BitTorrent policy",
         "length-changing faults are limited to dropping/adding one trailing byte; cells shorter than the 29-byte "
         "header or with an empty body are C03's subject",
+        "anonymized-overlay send histories: packets handed to TunnelEndpoint.send while no circuit is READY are only "
+        "required to leave the exit if a later send found a READY circuit (that is what flushes the hold queue); no order "
+        "is demanded; inbound delivery to an anonymized overlay (notify_listeners(from_tunnel)) is not covered; circuit "
+        "bookkeeping of TunnelEndpoint (how many circuits it creates) is C07's subject",
         "one fault per flow; the virtual clock only advances in retirement runs (timeouts are C09's subject)",
         "cell duplication/replay on the same link is not a fault class here: the statement does not promise replay "
         "protection and the code has none (the untouched original is in fact re-delivered after every fault)",
@@ -1414,7 +1574,7 @@ def run(ctx: core.Ctx) -> core.Report:
 def _case_rank(rp: dict) -> tuple:
     """Prefer small replays: fewer hops, clean before faults, small sizes, low link."""
     c = rp["case"]
-    return (str(rp["h"]), c[1], str(c[3]), str(c[4]), repr(c[5]))
+    return (str(rp["h"]), c[1], len(str(c[3])), str(c[3]), str(c[4]), repr(c[5]))
 
 
 def replay(ctx: core.Ctx, data) -> list:  # noqa: ANN001
